@@ -94,7 +94,68 @@ func visualExtent(o *d2graph.Object) []region {
 			}
 		}
 	}
+	// the box extended by label, icon and 3d/multiple offsets as one rectangle, in d2's own two
+	// paddings (GetMargin: label.PADDING, Spacing: 2*label.PADDING)
+	m1 := o.GetMargin()
+	rs = append(rs, region{"extended-box(GetMargin)", fbox{b.x0 - m1.Left, b.y0 - m1.Top, b.x1 + m1.Right, b.y1 + m1.Bottom}, nil})
+	m2, _ := o.Spacing()
+	rs = append(rs, region{"extended-box(Spacing)", fbox{b.x0 - m2.Left, b.y0 - m2.Top, b.x1 + m2.Right, b.y1 + m2.Bottom}, nil})
 	return rs
+}
+
+// displacedRegions: the outside label / icon boxes moved by the 3d/multiple offset. They are NOT part
+// of the visual extent (label and icon are drawn relative to the unshifted box); they only serve to
+// name the mechanism when an endpoint sits on one of them.
+func displacedRegions(o *d2graph.Object) []region {
+	dx, dy := o.GetModifierElementAdjustments()
+	if dx == 0 && dy == 0 {
+		return nil
+	}
+	var out []region
+	for _, r := range visualExtent(o) {
+		if strings.HasPrefix(r.name, "outside-") {
+			out = append(out, region{"displaced-" + r.name, fbox{r.box.x0 + dx, r.box.y0 - dy, r.box.x1 + dx, r.box.y1 - dy}, nil})
+		}
+	}
+	return out
+}
+
+func hasMargin(o *d2graph.Object) bool {
+	m, _ := o.Spacing()
+	return m.Left != 0 || m.Right != 0 || m.Top != 0 || m.Bottom != 0
+}
+
+// offBorderClass names the mechanism of an endpoint that is not on the extent's border.
+func offBorderClass(mech, end string, o *d2graph.Object, p *geo.Point, tau float64, selfLoop bool) string {
+	for _, r := range displacedRegions(o) {
+		if distToRectBorder(p.X, p.Y, r.box) <= tau {
+			return "endpoint-clipped-to-label/icon-box-displaced-by-3d/multiple-offset:" + mech + ":" + end
+		}
+	}
+	strictlyIn := func(b fbox) bool { return p.X > b.x0 && p.X < b.x1 && p.Y > b.y0 && p.Y < b.y1 }
+	where := "detached"
+	for _, r := range visualExtent(o) {
+		switch {
+		case r.name == "box" && strictlyIn(r.box):
+			where = "inside-box"
+		case r.name == "outside-label" && strictlyIn(r.box) && where == "detached":
+			where = "inside-outside-label"
+		case r.name == "outside-icon" && strictlyIn(r.box) && where == "detached":
+			where = "inside-outside-icon"
+		}
+	}
+	if selfLoop {
+		k := "plain-shape"
+		if hasMargin(o) {
+			k = "shape-with-margin(outside-label/icon/3d/multiple)"
+		}
+		return "self-loop-endpoint-off-border:" + mech + ":" + k + ":" + where
+	}
+	if where == "inside-outside-label" || where == "inside-outside-icon" {
+		// the route stops in the middle of the endpoint's own outside label / icon
+		return "endpoint-" + where + ":" + mech + ":" + end
+	}
+	return "endpoint-off-border:" + mech + ":" + end + ":" + endKind(o) + ":" + where
 }
 
 func onExtentBorder(o *d2graph.Object, p *geo.Point, tau float64) (bool, string) {
@@ -215,15 +276,7 @@ func c20Oracle(in string) eng.Res {
 				ok, why := onExtentBorder(end.o, end.p, tau)
 				if !ok {
 					b := objBox(end.o)
-					where := "outside-box"
-					if end.p.X > b.x0 && end.p.X < b.x1 && end.p.Y > b.y0 && end.p.Y < b.y1 {
-						where = "inside-box"
-					}
-					self := ""
-					if e.Src == e.Dst {
-						self = ":self-loop"
-					}
-					r := eng.Bad("endpoint-off-border:"+mech+":"+end.name+":"+endKind(end.o)+":"+where+self,
+					r := eng.Bad(offBorderClass(mech, end.name, end.o, end.p, tau, e.Src == e.Dst),
 						fmt.Sprintf("board %s connection %q: %s point (%.1f,%.1f) is not within %.0f px of the border of %q's visual extent (box %v; distances: %s); route %s", path, e.AbsID(), end.name, end.p.X, end.p.Y, tau, end.o.AbsID(), b, why, routeStr(e)))
 					res = &r
 					return
